@@ -14,16 +14,16 @@ from vf import termmodel
 F_X = ["rich/console.py:Console._render_buffer", "rich/console.py:Console.export_text", "rich/console.py:Console.export_html",
        "rich/console.py:Console.capture", "rich/console.py:Capture", "rich/segment.py:Segment.simplify",
        "rich/segment.py:Segment.filter_control"]
-TEXTS = ["a", "<", ">&", "\n", "b\n", " "]
+TEXTS = ["a", "<", ">&", "\n", "b\n", " ", "&lt;x", "&#38;&amp;"]
 CTRL = ["\x07", "\x1b[1A", "\x1b[?25l"]
 STYLES = [None, Style(bold=True), Style(color="red", link="http://x/?a=1&b=2"), Style(bold=True)]
 SYSTEMS = [None, "truecolor", "standard"]
 _TAG = re.compile(r"<[^>]+>")
 
 
-def mk_console(system, terminal, record=True):
+def mk_console(system, terminal, record=True, no_color=False):
     return Console(file=io.StringIO(), color_system=system, force_terminal=terminal, width=20, legacy_windows=False,
-                   record=record, log_time=False, log_path=False, _environ={})
+                   record=record, log_time=False, log_path=False, no_color=no_color, _environ={})
 
 
 def _style_key(cell):
@@ -58,7 +58,7 @@ def exports_agree(c, expected_cells=None) -> bool:
 
 def _mk_unit(nseg, tiers, timeout):
     @symx("C15-record-buffer-%dseg" % nseg, tiers=tiers, timeout=timeout, kind="P", functions=F_X,
-          bounds="recording console (colour system from %r, terminal or not) whose buffer receives every list of %d segments, each a "
+          bounds="recording console (colour system from %r, terminal or not, NO_COLOR on/off) whose buffer receives every list of %d segments, each a "
                  "text from %r with a style from {none, bold, red+link, bold again} or an unstyled control segment from %r "
                  "(solver-enumerated, native): export_text == visible text of the file; export_html (both modes) with tags removed "
                  "and entities decoded == same and free of control characters; export_text(styles=True) decodes to the same "
@@ -67,6 +67,7 @@ def _mk_unit(nseg, tiers, timeout):
     def h(e):
         system = SYSTEMS[int(e.mk("system", 0, len(SYSTEMS) - 1))]
         terminal = bool(e.mkbool("terminal"))
+        no_color = bool(e.mkbool("no_color"))
         segs = []
         for i in range(nseg):
             k = int(e.mk("seg%d" % i, 0, len(TEXTS) + len(CTRL) - 1))
@@ -75,7 +76,7 @@ def _mk_unit(nseg, tiers, timeout):
                 segs.append(Segment(TEXTS[k], st))
             else:
                 segs.append(Segment.control(CTRL[k - len(TEXTS)]))
-        c = mk_console(system, terminal)
+        c = mk_console(system, terminal, no_color=no_color)
         with c:
             c._buffer.extend(segs)
         cells = []
@@ -99,7 +100,7 @@ _mk_unit(3, ("thorough",), 3400)
 # --- API level: histories of print / log / rule / line / control, with and without capture ---------------------------
 def _apply(c, op, arg):
     if op == 0:
-        c.print(["a<b", "[bold]x[/] & y", Text("wide 中", style="red"), "l1\nl2"][arg])
+        c.print(["a<b &lt; &amp;", "[bold]x[/] & y", Text("wide 中", style="red"), "l1\nl2"][arg])
     elif op == 1:
         c.print("s&t", style=["bold", "red on blue", "link http://l", "none"][arg])
     elif op == 2:
@@ -127,9 +128,10 @@ def _mk_api(nops, tiers, timeout):
     def h(e):
         system = [None, "truecolor"][int(e.mk("system", 0, 1))]
         terminal = bool(e.mkbool("terminal"))
+        no_color = bool(e.mkbool("no_color"))
         ops = [(int(e.mk("op%d" % i, 0, 7)), int(e.mk("arg%d" % i, 0, 3))) for i in range(nops)]
         cap_at = int(e.mk("capture_at", 0, nops))      # nops = no capture
-        c = mk_console(system, terminal)
+        c = mk_console(system, terminal, no_color=no_color)
         for i, (op, arg) in enumerate(ops):
             if i == cap_at:
                 before = c.file.getvalue()
@@ -139,14 +141,14 @@ def _mk_api(nops, tiers, timeout):
                         return False
                 if c.file.getvalue() != before:
                     return False
-                twin = mk_console(system, terminal, record=False)
+                twin = mk_console(system, terminal, record=False, no_color=no_color)
                 _apply(twin, op, arg)
                 # hyperlink ids are random per Style object: normalise them before comparing
                 norm = lambda t: re.sub(r"\x1b\]8;id=[^;]*;", "\x1b]8;id=N;", t)  # noqa: E731
                 if norm(cap.get()) != norm(twin.file.getvalue()):
                     return False
                 # captured output is not part of what was written to the file: drop it from the record for the comparison
-                c2 = mk_console(system, terminal)
+                c2 = mk_console(system, terminal, no_color=no_color)
                 for (op2, arg2) in ops[:i]:
                     _apply(c2, op2, arg2)
                 if norm(c2.file.getvalue()) != norm(before):
